@@ -17,6 +17,7 @@ import sys
 import time
 
 ROOT = os.path.dirname(os.path.dirname(os.path.abspath(__file__)))
+DIR = os.environ.get("SEEDED_DIR", "seeded")  # own_mutants/ has the same layout (patch.diff + meta.json)
 REPO = "/repo"
 
 
@@ -25,11 +26,11 @@ def run(cmd, **kw):
 
 
 def main():
-    ids = sys.argv[1:] or sorted(d for d in os.listdir(os.path.join(ROOT, "seeded"))
-                                 if os.path.isfile(os.path.join(ROOT, "seeded", d, "patch.diff")))
+    ids = sys.argv[1:] or sorted(d for d in os.listdir(os.path.join(ROOT, DIR))
+                                 if os.path.isfile(os.path.join(ROOT, DIR, d, "patch.diff")))
     summary = []
     for sid in ids:
-        d = os.path.join(ROOT, "seeded", sid)
+        d = os.path.join(ROOT, DIR, sid)
         meta = json.load(open(os.path.join(d, "meta.json")))
         prop = meta["property"]
         scratch = "/tmp/seeded-run-%s-%d" % (sid, os.getpid())
